@@ -23,7 +23,7 @@ RULE = ("frames built from parts in Python (header fields x raw/compressed/empty
         "alphabets, skippable frames (16 magics, sizes 0..), multi-frame buffers with trailing bytes, linked blocks over >64KB; directed families: "
         "'recycle' (linked, > maxBlockSize+128KB of uncompressed blocks through small dst buffers, then far matches), 'maxblock' (stored block size == "
         "maxBlockSize staged through tmpIn, internal allocation sizes compared with the model), 'skipleak' (skipChecksums on frame k, checksum-only "
-        "damage on frame k+1), 'infodict' (getFrameInfo then decompress_usingDict); each byte string under "
+        "damage on frame k+1), 'infodict' (getFrameInfo then decompress_usingDict), 'infoskip' (getFrameInfo on a skippable frame, the rest through LZ4F_decompress in small pieces); each byte string under "
         "chunkings {whole, 1-byte, header-splitting, random, hint-following} x capacities {1,7,bs-1,bs,large,random incl. 0/NULL} x skipChecksums x "
         "stableDst x {fresh exact dst per call, advancing window}. non-trivial = a session that got past the frame header (block or skippable stage); "
         "distinct = distinct (bytes, chunking, capacity policy, options)")
@@ -71,6 +71,7 @@ def gen_cases(tier, seed):
         add("maxblock", 1, bsid=4, raw=True, bcrc=True, sessions=2)
         add("skipleak", 8)
         add("infodict", 6)
+        add("infoskip", 4)
     elif tier == "search":
         add("valid", 60, frames=3, sessions=8)
         add("mutated", 60, frames=4, sessions=4)
@@ -92,6 +93,7 @@ def gen_cases(tier, seed):
             add("maxblock", 1, bsid=b, raw=True, bcrc=True, sessions=2)
         add("skipleak", 30)
         add("infodict", 20)
+        add("infoskip", 10)
     else:
         add("valid", 300, frames=3, sessions=10)
         add("mutated", 300, frames=4, sessions=5)
@@ -116,6 +118,7 @@ def gen_cases(tier, seed):
         add("maxblock", 1, bsid=4, raw=False, bcrc=True, sessions=1, one=True)
         add("skipleak", 100)
         add("infodict", 80)
+        add("infoskip", 40)
     return cases
 
 def worker_init(ctx):
@@ -652,6 +655,14 @@ def run_case(st, case):
                 acc.fail(f[0], f[1], f[2]); break
         else:
             acc.keys.add("infodict_%d" % case["bseed"])
+    elif kind == "infoskip":
+        for j in range(6):
+            ev, f = F.run_info_then_skippable(st, rng)
+            acc.evals += ev; acc.stats["infoskip_runs"] += 1
+            if f:
+                acc.fail(f[0], f[1], f[2]); break
+        else:
+            acc.keys.add("infoskip_%d" % case["bseed"])
     elif kind == "skipleak":
         for j in range(4):
             ev, f = F.run_skipleak(st, rng)
